@@ -1,6 +1,7 @@
 """C07 - default reference resolution finds the unique matching object.
 
-Domain : generated trees of named objects of related classes (Base: A | B; unrelated Other;
+Domain : generated trees of named objects of related classes (a diamond: Base: Left | Right;
+         Left: A | S; Right: S | B; unrelated Other;
          nested Group, which is named too), names from a pool of 4 (duplicates across and within
          classes are frequent), references to abstract Base, concrete A, Other, in single and
          list attributes, dangling names, a builtins dict with conforming / non-conforming objects.
@@ -35,11 +36,16 @@ DESIGN_REF = "DESIGN.md section 4, C07"
 
 GRAMMAR = r"""
 Model: elems*=Elem;
-Elem: Group | A | B | Other | RefBase | RefA | RefO | RefL;
+Elem: Group | A | B | S | Other | RefBase | RefA | RefO | RefL | RefLeft | RefRight;
 Group: 'group' name=ID '{' elems*=Elem '}';
-Base: A | B;
+Base: Left | Right;
+Left: A | S;
+Right: S | B;
 A: 'a' name=ID;
 B: 'b' name=ID;
+S: 's' name=ID;
+RefLeft: 'refleft' r=[Left];
+RefRight: 'refright' r=[Right];
 Other: 'other' name=ID;
 RefBase: 'refbase' r=[Base];
 RefA: 'refa' r=[A];
@@ -49,7 +55,8 @@ Comment: /\/\/.*?$/ | /\/\*(.|\n)*?\*\//;
 """
 NAMES = ["x", "y", "z", "w"]
 REFNAMES = NAMES + ["q"]
-CONFORMS = {"Base": {"A", "B"}, "A": {"A"}, "Other": {"Other"}}
+# Base is the top of a diamond: S is reachable through Left and through Right
+CONFORMS = {"Base": {"A", "B", "S"}, "Left": {"A", "S"}, "Right": {"S", "B"}, "A": {"A"}, "Other": {"Other"}}
 
 
 def elems(depth):
@@ -58,8 +65,8 @@ def elems(depth):
     # modulo), otherwise a pool name (possibly dangling)
     rname = st.integers(0, 16)
     leaf = st.one_of(
-        st.tuples(st.sampled_from(["A", "B", "Other", "A", "B"]), name).map(lambda t: {"k": t[0], "name": t[1]}),
-        st.tuples(st.sampled_from(["RefBase", "RefA", "RefO"]), rname).map(lambda t: {"k": t[0], "ref": t[1]}),
+        st.tuples(st.sampled_from(["A", "B", "Other", "A", "B", "S"]), name).map(lambda t: {"k": t[0], "name": t[1]}),
+        st.tuples(st.sampled_from(["RefBase", "RefA", "RefO", "RefBase", "RefLeft", "RefRight"]), rname).map(lambda t: {"k": t[0], "ref": t[1]}),
         st.lists(rname, min_size=1, max_size=3).map(lambda l: {"k": "RefL", "refs": l}),
     )
     if depth == 0:
@@ -107,7 +114,7 @@ def write(case):
             for i, c in enumerate(e["elems"]):
                 go(c, path + (i,))
             w.tok("}")
-        elif k in ("A", "B", "Other"):
+        elif k in ("A", "B", "S", "Other"):
             w.tok(k.lower())
             w.tok(e["name"])
             objs.append((path, k, e["name"]))
@@ -119,7 +126,8 @@ def write(case):
                 off = w.tok(rn(n))
                 refs.append((path, "Base", rn(n), "l", j, off))
         else:
-            kw, rule = {"RefBase": ("refbase", "Base"), "RefA": ("refa", "A"), "RefO": ("refo", "Other")}[k]
+            kw, rule = {"RefBase": ("refbase", "Base"), "RefA": ("refa", "A"), "RefO": ("refo", "Other"),
+                        "RefLeft": ("refleft", "Left"), "RefRight": ("refright", "Right")}[k]
             w.tok(kw)
             off = w.tok(rn(e["ref"]))
             refs.append((path, rule, rn(e["ref"]), "r", None, off))
